@@ -8,7 +8,8 @@ EXPLANATION = (
     '(D2) the final sort and retrieve_ritzpair move values, estimates, vectors and flags with one index vector that orders '
     'exactly those values; (D3) shift solvers back-transform the first nev values and then call the base sort on every '
     'path; (D5) the convergence test is |est|*||f|| < tol*max(eps^(2/3),|theta|) over the first nev entries, as a normal '
-    'form of the assignment. (D6) the cached residual norm used by the convergence test tracks the residual vector '
+    'form of the assignment. (D6) the cached residual norm used by the convergence test tracks the residual vector, the sub-diagonal entry is zero exactly on '
+    'breakdown paths, and the factorization is resumed at its own dimension on every init() / compute() history '
     '(pairing rule shared with C07). Does NOT decide residual sizes, orthonormality or any floating-point magnitude.')
 ASSUMPTIONS = ['Eigen kernels and std::sort are correct', 'instantiations listed in drivers/ are representative of every OpType']
 
@@ -18,6 +19,8 @@ BASE = 'Spectra::HermEigsBase'
 def run(ctx):
     from . import factorization as fz
     fz.beta_tracks_residual(ctx)
+    fz.resumed_at_own_dimension(ctx, BASE)
+    fz.subdiagonal_on_breakdown(ctx)
     eigsbase.flag_freshness(ctx, BASE)
     eigsbase.coherent_permutation(ctx, BASE)
     eigsbase.coherent_retrieve(ctx, BASE)
